@@ -1279,8 +1279,15 @@ fn c11_dual<D: Dual>(ctx: &mut Ctx) -> R {
 
 pub fn c11(ctx: &mut Ctx) -> R {
     let mut round = 0u32;
+    // one comparison target that lives through a history of re-initialisations: it (and its
+    // position arrays) must be valid after every safe operation, Debug formatting included
+    let mut htarget = ssdeep::FuzzyHashCompareTarget::new();
+    let mut history: Vec<String> = Vec::new();
     while ctx.alive() {
         round += 1;
+        let which = if ctx.rng.chance(1, 3) { ctx.rng.below(6) as u32 } else { round };
+        let hm = crate::p_compare::history_model(ctx, which);
+        crate::p_compare::target_history_step(ctx, &mut htarget, &hm, &mut history)?;
         ctx.input();
         c11_plain::<FuzzyHash>(ctx)?;
         c11_plain::<RawFuzzyHash>(ctx)?;
